@@ -1,0 +1,59 @@
+//go:build verif
+
+package dirreader
+
+import (
+	"context"
+	"os"
+
+	"github.com/fsnotify/fsnotify"
+)
+
+// The declarations in this file only exist in builds with the "verif" tag.
+// They let the external runtime-verification harness run the unmodified
+// LogDirReader loop against a file system and an event source it controls.
+
+// VerifFile is the file abstraction used by the reader.
+type VerifFile = statReadSeekCloser
+
+// VerifFileSystem is the file system abstraction used by the reader.
+type VerifFileSystem interface {
+	Open(filePath string) (VerifFile, error)
+}
+
+type verifFS struct{ inner VerifFileSystem }
+
+func (o *verifFS) Open(filePath string) (statReadSeekCloser, error) {
+	return o.inner.Open(filePath)
+}
+
+type verifWatcher struct{ events <-chan fsnotify.Event }
+
+func (o *verifWatcher) Events() <-chan fsnotify.Event { return o.events }
+
+func (o *verifWatcher) Close() error { return nil }
+
+// NewVerifLogDirReader builds and starts a LogDirReader exactly like
+// StartLogDirReader does, except that the directory listing, the file
+// system and the fsnotify event stream are supplied by the caller.
+func NewVerifLogDirReader(
+	ctx context.Context,
+	dirPath string,
+	dirEntries []os.DirEntry,
+	fsys VerifFileSystem,
+	events <-chan fsnotify.Event,
+) *LogDirReader {
+	r := &LogDirReader{
+		dirPath:       dirPath,
+		initFileNames: sortLogNamesOldToNew(dirEntries),
+		watcher:       &verifWatcher{events: events},
+		fs:            &verifFS{inner: fsys},
+		lines:         make(chan string),
+		initFilesDone: make(chan struct{}),
+		done:          make(chan struct{}),
+	}
+
+	go r.loop(ctx)
+
+	return r
+}
